@@ -91,8 +91,13 @@ class _Filterer(object):
                 continue
             if key == '$expr':
                 parse_expression = self.parse_expression[0]
-                if not mongodb_to_bool(
-                        parse_expression(search, document, ignore_missing_keys=True)):
+                try:
+                    value = parse_expression(search, document, ignore_missing_keys=True)
+                except KeyError:
+                    # The expression refers to a field that the document does not have: its
+                    # value is missing, which is not true.
+                    return False
+                if not mongodb_to_bool(value):
                     return False
                 continue
             if key in _TOP_LEVEL_OPERATORS:
